@@ -11,6 +11,7 @@ import traceback
 VERIF = os.path.dirname(os.path.dirname(os.path.dirname(os.path.abspath(__file__))))
 REPO = os.environ.get("VERIF_REPO", "/repo")
 VENV_PY = os.environ.get("VERIF_VENV_PY", "/venv/bin/python")
+EVID = os.environ.get("VERIF_EVIDENCE_DIR", os.path.join(VERIF, "evidence"))
 
 
 class Case:
@@ -192,6 +193,7 @@ class Report:
         self.undecided = []
         self.crashes = []
         self.conf = {"runs": 0, "skipped": 0, "failures": []}
+        self.finite = {}
         self.findings = load_findings()
         self.nreplay = 0
 
@@ -261,7 +263,7 @@ class Report:
                 self.known.append((f, ob["id"]))
                 continue
             self.nreplay += 1
-            os.makedirs(os.path.join(VERIF, "evidence", "replay"), exist_ok=True)
+            os.makedirs(os.path.join(EVID, "replay"), exist_ok=True)
             path = os.path.join(VERIF, "evidence", "replay", "%s-%d.json" % (self.pid, self.nreplay))
             doc = {"property": self.pid, "case": r["case"], "obligation": ob["id"], "path": ob["path"],
                    "solver": {"status": ob["status"], "backend": ob["backend"], "goal": ob.get("goal"),
@@ -279,6 +281,9 @@ class Report:
         for cid, c in self.cases.items():
             if not c.conc:
                 continue
+            if not c.sym:
+                jobs.append({"case": cid, "inputs": {"__tier": self.tier}, "seed": self.seed, "finite": True})
+                continue
             for i in range(k):
                 jobs.append({"case": cid, "inputs": {}, "seed": (self.seed + 1) * 100003 + i})
         if not jobs:
@@ -295,7 +300,12 @@ class Report:
             if o.get("error"):
                 self.crashes.append("conformance %s: %s" % (j["case"], o["error"][-800:]))
                 continue
-            self.conf["runs"] += 1
+            if j.get("finite"):
+                self.finite[j["case"]] = {"checks": o.get("checks", 0), "failures": len(o.get("failures") or [])}
+                if not o.get("checks"):
+                    self.crashes.append("finite case %s ran zero checks" % j["case"])
+            else:
+                self.conf["runs"] += 1
             if o.get("failures"):
                 ids = [f["obligation"] for f in o["failures"]]
                 f = None
@@ -315,7 +325,7 @@ class Report:
                 continue
             seen.add(key)
             self.nreplay += 1
-            os.makedirs(os.path.join(VERIF, "evidence", "replay"), exist_ok=True)
+            os.makedirs(os.path.join(EVID, "replay"), exist_ok=True)
             path = os.path.join(VERIF, "evidence", "replay", "%s-%d.json" % (self.pid, self.nreplay))
             with open(path, "w", encoding="utf-8") as fh:
                 json.dump({"property": self.pid, "case": cf["case"], "obligation": cf["failed"][0],
@@ -351,7 +361,7 @@ class Report:
                     self.known.append((f, v["obligation"]))
                     continue
                 self.nreplay += 1
-                os.makedirs(os.path.join(VERIF, "evidence", "replay"), exist_ok=True)
+                os.makedirs(os.path.join(EVID, "replay"), exist_ok=True)
                 path = os.path.join(VERIF, "evidence", "replay", "%s-%d.json" % (pid, self.nreplay))
                 with open(path, "w", encoding="utf-8") as fh:
                     json.dump({"property": pid, "obligation": v["obligation"], "replayed_on_real_code": True,
@@ -387,6 +397,7 @@ class Report:
             "conformance": {"concrete_runs_on_untouched_code": self.conf["runs"],
                             "skipped_outside_precondition": self.conf["skipped"],
                             "failures": len(self.conf["failures"])},
+            "finite_exhaustive_checks_on_untouched_code": self.finite,
             "rewrites": _merge_rewrites(self.results),
             "extra_steps": [{k: v for k, v in e.items() if k not in ("violations",)} for e in self.extra],
             "known_findings_printed": sorted({f["raw"] for f, _ in self.known}),
@@ -402,8 +413,8 @@ class Report:
             "coverage": cov, "assumptions": meta.get("assumptions", []),
             "wall_s": round(time.time() - self.t0, 2), "violations": len(self.violations),
         }
-        os.makedirs(os.path.join(VERIF, "evidence"), exist_ok=True)
-        with open(os.path.join(VERIF, "evidence", "%s.json" % pid), "w", encoding="utf-8") as fh:
+        os.makedirs(EVID, exist_ok=True)
+        with open(os.path.join(EVID, "%s.json" % pid), "w", encoding="utf-8") as fh:
             json.dump(ev, fh, indent=1, ensure_ascii=False)
         # ---- verdict
         printed = set()
